@@ -249,7 +249,10 @@ func runC10(c *Ctx) {
 		docs = append(docs, g.next())
 	}
 	// URL attacks are where Unsafe matters
-	for _, sc := range []string{"javascript:alert(1)", "JAVASCRIPT:x", "vbscript:x", "file:///x", "data:text/html,x", "data:image/png;base64,x", "http://ok", "java&Tab;script:x", "javascript&colon;x"} {
+	for _, sc := range []string{"javascript:alert(1)", "JAVASCRIPT:x", "vbscript:x", "file:///x", "data:text/html,x", "data:image/png;base64,x", "http://ok", "java&Tab;script:x", "javascript&colon;x",
+		// every data:image type the renderer lists as harmless, and near misses (classified by OptionRel.tla)
+		"data:image/svg+xml;base64,x", "DATA:image/SVG+xml;utf8,x", "data:image/gif;base64,x", "data:image/jpeg;base64,x", "data:image/webp;base64,x",
+		"data:image/svg+xml,x", "data:image/bmp;base64,x", "data:image/png,x", "data:text/plain,x", "mailto:a@b.c", "tel:1", "//host/p", "?q=javascript:x", "#javascript:x", "< leading>", "x:/y"} {
 		docs = append(docs, "[a]("+sc+")\n", "![a]("+sc+")\n", "<"+sc+">\n", "[a][r]\n\n[r]: "+sc+"\n", "a\n<b>\n"+sc+" <i>x</i>\n")
 	}
 	ev.Set("documents", len(docs))
